@@ -122,6 +122,13 @@ pub fn run(ctx: &Ctx, rep: &mut Report) {
                         vals.push(os.wrapping_sub(d) & max);
                     }
                 }
+                // the sentinel with one bit flipped / shifted by a power of two (aliases under a
+                // wrong mask or a dropped sign bit)
+                for k in 0..width {
+                    vals.push((s ^ (1u64 << k)) & max);
+                    vals.push(s.wrapping_add(1u64 << k) & max);
+                    vals.push(s.wrapping_sub(1u64 << k) & max);
+                }
                 // negated sentinel (sign handling) and random values
                 vals.push(((1u64 << width) - s) & max);
                 for _ in 0..ctx.budget(1 << 12, 1 << 16) {
